@@ -10,8 +10,23 @@ import (
 
 // loopShape: index value, first value and step of a counting loop with an arbitrary step.
 func loopShape(n *Normer, hdr *ssa.BasicBlock) (idx ssa.Value, init Poly, step Poly, ok bool) {
+	cs := loopShapes(n, hdr)
+	if len(cs) == 0 {
+		return nil, nil, nil, false
+	}
+	return cs[0].idx, cs[0].init, cs[0].step, true
+}
+
+type loopVar struct {
+	idx        ssa.Value
+	init, step Poly
+}
+
+// loopShapes: every header phi that advances by a loop-invariant step (unit-step counters first).
+func loopShapes(n *Normer, hdr *ssa.BasicBlock) []loopVar {
+	var out []loopVar
 	if v, _, in, isUnit := loopIndex(hdr); isUnit {
-		return v, pConst(in), pConst(1), true
+		out = append(out, loopVar{v, pConst(in), pConst(1)})
 	}
 	for _, ins := range hdr.Instrs {
 		phi, isPhi := ins.(*ssa.Phi)
@@ -19,6 +34,9 @@ func loopShape(n *Normer, hdr *ssa.BasicBlock) (idx ssa.Value, init Poly, step P
 			break
 		}
 		if !isIntType(phi.Type()) {
+			continue
+		}
+		if len(out) > 0 && (out[0].idx == ssa.Value(phi)) {
 			continue
 		}
 		var in, st Poly
@@ -42,10 +60,10 @@ func loopShape(n *Normer, hdr *ssa.BasicBlock) (idx ssa.Value, init Poly, step P
 		}
 		delete(n.Bind, phi)
 		if !bad && nIn == 1 && nSt >= 1 {
-			return phi, in, st, true
+			out = append(out, loopVar{phi, in, st})
 		}
 	}
-	return nil, nil, nil, false
+	return out
 }
 
 // D9: DataMatrix Merge - finder / clock tracks and region copy.
@@ -138,33 +156,37 @@ func ruleDataMatrixMerge(c *Ctx) {
 // continue condition in terms of q. This makes a rule independent of whether a loop runs over
 // i, over k-1-i or over an offset index.
 func reindexLoop(n *Normer, hdr *ssa.BasicBlock, storeIdx ssa.Value) (first Poly, step Poly, cond *Cond, ok bool) {
-	xv, init, st, okS := loopShape(n, hdr)
-	if !okS {
-		return nil, nil, nil, false
-	}
-	const X = "\x01x"
-	n.Bind[xv] = X
-	idx := n.Norm(storeIdx)
-	delete(n.Bind, xv)
-	a := idx[X]
-	if a != 1 && a != -1 {
-		return nil, nil, nil, false
-	}
-	rest := Poly{}
-	for m, cf := range idx {
-		if m == X {
+	for _, lv := range loopShapes(n, hdr) {
+		xv, init, st := lv.idx, lv.init, lv.step
+		const X = "\x01x"
+		n.Bind[xv] = X
+		idx := n.Norm(storeIdx)
+		delete(n.Bind, xv)
+		a := idx[X]
+		if a != 1 && a != -1 {
 			continue
 		}
-		if strings.Contains(m, X) {
-			return nil, nil, nil, false
+		rest := Poly{}
+		bad := false
+		for m, cf := range idx {
+			if m == X {
+				continue
+			}
+			if strings.Contains(m, X) {
+				bad = true
+			}
+			rest[m] = cf
 		}
-		rest[m] = cf
+		if bad {
+			continue
+		}
+		// x = a*(q - rest)
+		xInQ := pScale(pAdd(pAtom("q"), rest, -1), a)
+		n.env = append(n.env, map[ssa.Value]Poly{xv: xInQ})
+		first = pAdd(pScale(init, a), rest, 1)
+		step = pScale(st, a)
+		cond = n.EdgeCond(hdr, hdr.Succs[0])
+		return first, step, cond, true
 	}
-	// x = a*(q - rest)
-	xInQ := pScale(pAdd(pAtom("q"), rest, -1), a)
-	n.env = append(n.env, map[ssa.Value]Poly{xv: xInQ})
-	first = pAdd(pScale(init, a), rest, 1)
-	step = pScale(st, a)
-	cond = n.EdgeCond(hdr, hdr.Succs[0])
-	return first, step, cond, true
+	return nil, nil, nil, false
 }
